@@ -56,15 +56,15 @@ class Qz:
             qq = st.ctx.sym_range('cached.q', 0, self.MAX_OCT, integer=True)
             pc = st.ctx.sym_range('cached.pc', 0, 11, integer=True)
             note = qq.scale(12) + pc
-            cc.fields[cc.names.index('note_num')] = Num(note, 'u8')
-            cc.fields[cc.names.index('stairstep')] = Num(note.scale(Fr(1, 12)), 'f32')
+            cc.set('note_num', Num(note, 'u8'))
+            cc.set('stairstep', Num(note.scale(Fr(1, 12)), 'f32'))
         elif cached == 'fresh':
             it2 = Interp(self.facts)
             s2 = it2.start(CONV + '::new', [])
             outs = it2.run(s2)
             if len(outs) != 1 or not isinstance(outs[0].ret, StructV):
                 raise InterpError('Conversion::new has no single summary')
-            q.fields[q.names.index('cached_conversion')] = outs[0].ret
+            q.set('cached_conversion', outs[0].ret)
         return q
 
     def enabled(self, allowed, pc, ctx):
